@@ -30,6 +30,7 @@ type Cell struct {
 	Passes    int    `json:"passes"`
 	Consumers int    `json:"consumers"`
 	Engine    bool   `json:"engine_level,omitempty"`
+	SlowLoad  bool   `json:"cancel_while_reading_input,omitempty"`
 }
 
 func httpFile(kind string, e int) (string, []byte) {
@@ -173,8 +174,88 @@ type countGun struct {
 func (g *countGun) Bind(a core.Aggregator, _ core.GunDeps) error { g.aggr = a; return nil }
 func (g *countGun) Shoot(core.Ammo)                              { g.n.Add(1) }
 
+var slowSeq atomic.Int64
+
+// cancelWhileLoading: the provider reads a large input through the slow filesystem (4 KiB and
+// 2 ms per Read); it is cancelled once it has made 20 reads. Judged logically: after the cancel
+// it may complete what it has in its buffers, but it must not go on reading the rest of the
+// input (hundreds of further reads), Run must return and consumers must unblock.
+func cancelWhileLoading(res *vkit.Result, c Cell) {
+	var typ string
+	var one []byte
+	var conf map[string]any
+	if c.Kind == "grpc/json" {
+		var b strings.Builder
+		for i := 0; i < 40; i++ {
+			fmt.Fprintf(&b, `{"tag":"t%d","call":"target.TargetService.Hello","payload":{"hello":"v%d"}}`+"\n", i, i)
+		}
+		typ, one = "grpc/json", []byte(b.String())
+	} else {
+		typ, one = httpFile(c.Kind, 40)
+	}
+	data := []byte(strings.Repeat(string(one), 1+(1500<<10)/len(one)))
+	path := fmt.Sprintf("/slow/c08-%d", slowSeq.Add(1))
+	_ = vkit.WriteMemAt(path, data)
+	defer vkit.RemoveMem(path)
+	conf = map[string]any{"type": typ, "file": path}
+	if c.Preload {
+		conf["preload"] = true
+	}
+	p, err := vkit.NewProvider(conf)
+	if err != nil {
+		res.Violate(key(c, "rejected"), fmt.Sprintf("valid provider config rejected: %v", err), c)
+		return
+	}
+	ctx, cancel := context.WithCancel(context.Background())
+	defer cancel()
+	start := vkit.SlowReads.Load()
+	done := make(chan error, 1)
+	go func() { done <- p.Run(ctx, core.ProviderDeps{Log: vkit.NopLog()}) }()
+	consumed := make(chan int, 1)
+	go func() {
+		n := 0
+		for {
+			a, ok := p.Acquire()
+			if !ok {
+				break
+			}
+			p.Release(a)
+			n++
+		}
+		consumed <- n
+	}()
+	deadline := time.Now().Add(30 * time.Second)
+	for vkit.SlowReads.Load()-start < 20 && time.Now().Before(deadline) {
+		time.Sleep(time.Millisecond)
+	}
+	atCancel := vkit.SlowReads.Load() - start
+	cancel()
+	totalReads := int64(len(data)/4096 + 1)
+	select {
+	case <-done:
+	case <-time.After(20 * time.Second):
+		res.Violate(key(c, "cancel-while-loading/hang"), fmt.Sprintf("Run did not return within 20 s after the cancel (%d input reads done at the cancel)", atCancel), c)
+		return
+	}
+	after := vkit.SlowReads.Load() - start - atCancel
+	select {
+	case <-consumed:
+	case <-time.After(20 * time.Second):
+		res.Violate(key(c, "cancel-while-loading/consumer-blocked"), "the consumer is still blocked in Acquire 20 s after the cancelled provider returned", c)
+	}
+	if after > 40 {
+		res.Violate(key(c, "cancel-while-loading/keeps-reading"), fmt.Sprintf("cancelled after %d input reads, the provider went on for %d more reads (whole input = %d reads) before Run returned", atCancel, after, totalReads), c)
+	}
+	res.Count("cancel_while_loading_cells", 1)
+	res.Max("max_reads_after_cancel", after)
+}
+
 // runCell returns "hang" when the watchdog fired.
 func runCell(res *vkit.Result, c Cell, watchdog time.Duration, final bool) string {
+	if c.SlowLoad {
+		cancelWhileLoading(res, c)
+		return ""
+	}
 	p, path, err := buildProvider(c)
 	defer vkit.RemoveMem(path)
 	if err != nil {
@@ -271,6 +352,11 @@ func cells(kind string) []Cell {
 		preloads = []bool{false, true}
 	}
 	consumers := []int{1, 3}
+	if kind == "uri" || kind == "uripost" || kind == "raw" || kind == "jsonline-lines" || kind == "grpc/json" {
+		for _, pre := range preloads {
+			out = append(out, Cell{Kind: kind, Preload: pre, SlowLoad: true, Consumers: 1})
+		}
+	}
 	for _, pre := range preloads {
 		for _, e := range []int{1, 2, 3, 5} {
 			seen := map[int]bool{}
@@ -329,7 +415,7 @@ func main() {
 		child()
 		return
 	}
-	res := vkit.NewResult("complete matrix: provider kind {uri, uripost, raw, http/json lines, http/json array} × preload {off,on}, grpc/json, http/scenario, grpc/scenario (ring size from weights incl. a common divisor), generic json × entries {1,2,3,5} × limit {0,1,2,E−1,E,E+1,2E+1} × passes {0,1,2,3} × consumers {1,3}, at provider level (Run + Acquire loops) and at engine level (real engine, counting gun); distinct = distinct cells; non-trivial = at least one bound is set")
+	res := vkit.NewResult("complete matrix: provider kind {uri, uripost, raw, http/json lines, http/json array} × preload {off,on}, grpc/json, http/scenario, grpc/scenario (ring size from weights incl. a common divisor), generic json × entries {1,2,3,5} × limit {0,1,2,E−1,E,E+1,2E+1} × passes {0,1,2,3} × consumers {1,3}, at provider level (Run + Acquire loops) and at engine level (real engine, counting gun); plus, per file-reading kind, a cancel while the provider is still reading a 1.5 MiB input through a slow filesystem (reads after the cancel are counted); distinct = distinct cells; non-trivial = at least one bound is set")
 	var batches [][]json.RawMessage
 	total := 0
 	for _, k := range kinds {
